@@ -62,7 +62,7 @@ class _AMQData:
     @classmethod
     def attributes(cls) -> list:
         """Return the list of attributes"""
-        return cls.__slots__
+        return list(cls.__slots__)
 
 
 class Frame(_AMQData):
